@@ -179,7 +179,7 @@ refactor("c01-loop-and-and", ["C01", "C03", "C13"], (OB, "while (order_entry.ord
 mutant("c05-raw-clock-key", ["C05"], (OB, "let key: OrderKey = (Side::Bid, order_entry.key.1, self.queue_time());", "let key: OrderKey = (Side::Bid, order_entry.key.1, self.t);"), expect="key-injective")
 mutant("c05-stamp-not-advanced", ["C05", "C01"], (OB, "        self.next_queue_time = queue_time + 1;", "        self.next_queue_time = queue_time;"), expect="stamp")
 mutant("c05-stamp-min", ["C05"], (OB, "let queue_time = self.t.max(self.next_queue_time);", "let queue_time = self.t.min(self.next_queue_time);"), expect="stamp")
-mutant("c05-loader-counter-dropped", ["C05"], (OB, "                next_queue_time = next_queue_time.max(key.2 + 1);", "                next_queue_time = next_queue_time.max(key.2);"), expect="loader")
+mutant("c05-loader-counter-dropped", ["C05"], (OB, "                next_queue_time = next_queue_time.max(key.2.saturating_add(1));", "                next_queue_time = next_queue_time.max(key.2);"), expect="loader")
 mutant("c05-loader-counter-active-only-guard", ["C05"], (OB, "            if order.status != Status::New {\n                next_queue_time", "            if order.status == Status::Filled {\n                next_queue_time"), expect="loader")
 mutant("c05-counter-reset", ["C05"], (OB, "        self.trade_vol = 0;\n    }", "        self.trade_vol = 0;\n        self.next_queue_time = 0;\n    }"), expect="stamp")
 mutant("c05-map-key-drops-time", ["C05", "C02"], (SIDE, "        self.orders.insert((key.1, key.2), idx);", "        self.orders.insert((key.1, key.2 / 1_000_000), idx);"), expect="key")
@@ -249,3 +249,71 @@ mutant("c13-market-disable-take-one", ["C13", "C14"], (MKT, """    pub fn disabl
         for book in self.order_books.iter_mut().take(1) {"""), expect="fan-out")
 mutant("c13-env-enable-calls-disable", ["C13"], (ENV, "    pub fn enable_trading(&mut self) {\n        self.order_book.enable_trading();", "    pub fn enable_trading(&mut self) {\n        self.order_book.disable_trading();"), expect="fan-out")
 mutant("c13-disable-resets-counter", ["C13"], (OB, "        self.trading = false;\n", "        self.trading = false;\n        self.trade_vol = 0;\n"), expect="toggle")
+
+# ------------------------------------------------------------------------------- C07
+mutant("c07-loader-files-start-vol", "C07", (OB, "Side::Bid => bid_side.insert_order(*key, order.order_id, order.vol),", "Side::Bid => bid_side.insert_order(*key, order.order_id, order.start_vol),"), expect="loader")
+mutant("c07-loader-no-status-filter", "C07", (OB, "            if order.status == Status::Active {\n                match order.side {", "            if order.status != Status::Cancelled {\n                match order.side {"), expect="loader")
+mutant("c07-loader-trade-vol-zero", "C07", (OB, "            trade_vol: state.trade_vol,\n            next_queue_time,", "            trade_vol: 0,\n            next_queue_time,"), expect="loader")
+mutant("c07-trading-defaulted", "C07", (OB, "struct OrderBookState<const LEVELS: usize = 10> {\n    t: Nanos,", "struct OrderBookState<const LEVELS: usize = 10> {\n    #[serde(default)]\n    t: Nanos,"), expect="tables")
+mutant("c07-skip-trades", "C07", (OB, "    /// History of trades\n    trades: Vec<Trade>,", "    /// History of trades\n    #[serde(skip_serializing)]\n    trades: Vec<Trade>,"), expect="tables")
+mutant("c07-load-unwrap", "C07", (OB, "        let order_book: Self = serde_json::from_reader(file)?;\n        Ok(order_book)\n    }\n}\n\n/// Match two", "        let order_book: Self = serde_json::from_reader(file).unwrap();\n        Ok(order_book)\n    }\n}\n\n/// Match two"), expect="save-load")
+mutant("c07-loader-skips-first", "C07", (OB, "for OrderEntry { order, key } in state.orders.iter() {", "for OrderEntry { order, key } in state.orders.iter().skip(1) {"), expect="loader")
+mutant("c07-loader-sides-swapped", "C07", (OB, "                    Side::Bid => bid_side.insert_order(*key, order.order_id, order.vol),\n                    Side::Ask => ask_side.insert_order(*key, order.order_id, order.vol),",
+       "                    Side::Bid => ask_side.insert_order(*key, order.order_id, order.vol),\n                    Side::Ask => bid_side.insert_order(*key, order.order_id, order.vol),"), expect="loader")
+mutant("c07-order-rename", "C07", ("crates/order_book/src/types.rs", "    /// Current volume of the order\n    pub vol: Vol,", "    /// Current volume of the order\n    #[serde(skip_deserializing)]\n    pub vol: Vol,"), expect="tables")
+
+# ------------------------------------------------------------------------------- C08
+mutant("c08-time-off-by-one", "C08", (ENV, ".set_time(start_time + Nanos::try_from(i).unwrap());", ".set_time(start_time + Nanos::try_from(i).unwrap() + 1);"), expect="clock")
+mutant("c08-clone-instead-of-take", ["C08", "C10"], (ENV, "let mut transactions = mem::take(&mut self.transactions);", "let mut transactions: Vec<Event<OrderId>> = self.transactions.drain(..).collect();\n        self.transactions.push(Event::Cancellation { order_id: 0 });"), expect="queue")
+mutant("c08-skip-first", ["C08", "C15"], (MENV, "for (i, t) in transactions.into_iter().enumerate() {", "for (i, t) in transactions.into_iter().skip(1).enumerate() {"), expect=["loop", "shuffle"])
+mutant("c08-reset-dropped", ["C08"], (ENV, "        self.order_book.reset_trade_vol();\n\n        let mut transactions", "        let mut transactions"), expect="reset")
+mutant("c08-swapped-modify-fields", "C08", (MKT, "            } => self.modify_order(order_id, new_price, new_vol),", "            } => self.modify_order(order_id, new_vol, new_price),"), expect="dispatch")
+mutant("c08-second-process", "C08", (ENV, "            self.order_book.process_event(t);\n        }", "            self.order_book.process_event(t);\n            if i == 3 {\n                self.order_book.process_event(Event::Cancellation { order_id: 0 });\n            }\n        }"), expect="apply")
+mutant("c08-step-size-doubled", "C08", (MENV, "self.market.set_time(start_time + self.step_size);", "self.market.set_time(start_time + self.step_size + self.step_size);"), expect="clock")
+mutant("c08-cancel-queues-new", "C08", (ENV, "        self.transactions.push(Event::Cancellation { order_id })", "        self.transactions.push(Event::New { order_id })"), expect="submit")
+mutant("c08-time-not-per-item", "C08", (MENV, """            self.market
+                .set_time(start_time + Nanos::try_from(i).unwrap());
+            self.market.process_event(t);""", """            if i % 2 == 0 {
+                self.market
+                    .set_time(start_time + Nanos::try_from(i).unwrap());
+            }
+            self.market.process_event(t);"""), expect="apply")
+refactor("c08-rename-loop-vars", ["C08", "C15", "C11"], (ENV, """        for (i, t) in transactions.into_iter().enumerate() {
+            self.order_book
+                .set_time(start_time + Nanos::try_from(i).unwrap());
+            self.order_book.process_event(t);""", """        for (n, event) in transactions.into_iter().enumerate() {
+            let now = start_time + Nanos::try_from(n).unwrap();
+            self.order_book.set_time(now);
+            self.order_book.process_event(event);"""))
+
+# ------------------------------------------------------------------------------- C10
+mutant("c10-immediate-cancel", "C10", (ENV, "        self.transactions.push(Event::Cancellation { order_id })", "        self.order_book.cancel_order(order_id);\n        self.transactions.push(Event::Cancellation { order_id })"), expect="effects")
+mutant("c10-snapshot-in-place-order", "C10", (ENV, "        self.transactions.push(Event::New { order_id });\n        Ok(order_id)", "        self.transactions.push(Event::New { order_id });\n        self.level_2_data = self.order_book.level_2_data();\n        Ok(order_id)"), expect=["effects", "snapshot"])
+mutant("c10-get-orderbook-mut", "C10", (ENV, "    pub fn get_orderbook(&self) -> &OrderBook<LEVELS> {\n        &self.order_book", "    pub fn get_orderbook(&self) -> &OrderBook<LEVELS> {\n        &self.order_book\n    }\n\n    /// Mutable access\n    pub fn get_orderbook_mut(&mut self) -> &mut OrderBook<LEVELS> {\n        &mut self.order_book"), expect="no-mut-out")
+mutant("c10-snapshot-before-loop", "C10", (MENV, """        self.market.set_time(start_time + self.step_size);
+
+        self.level_2_data = self.market.level_2_data();""", """        self.level_2_data = self.market.level_2_data();
+        self.market.set_time(start_time + self.step_size);
+"""), expect="snapshot")
+mutant("c10-menv-place-immediately", "C10", (MENV, "        self.transactions.push(Event::New { order_id });\n        Ok(order_id)", "        self.transactions.push(Event::New { order_id });\n        self.market.place_order(order_id);\n        Ok(order_id)"), expect="effects")
+
+# ------------------------------------------------------------------------------- C11
+mutant("c11-ask-col-from-bid", "C11", (DATA, "self.volumes_at_levels.1[i].push(record.ask_price_levels[i].0);", "self.volumes_at_levels.1[i].push(record.bid_price_levels[i].0);"), expect="append")
+mutant("c11-count-from-vol", "C11", (DATA, "self.orders_at_levels.0[i].push(record.bid_price_levels[i].1);", "self.orders_at_levels.0[i].push(record.bid_price_levels[i].0);"), expect="append")
+mutant("c11-level-shift", "C11", (DATA, "self.orders_at_levels.1[i].push(record.ask_price_levels[i].1);", "self.orders_at_levels.1[i].push(record.ask_price_levels[(i + 1) % N].1);"), expect="append")
+mutant("c11-counts-getter-returns-vols", "C11", (ENV, """            &self.level_2_data_records.orders_at_levels.0[0],
+            &self.level_2_data_records.orders_at_levels.1[0],""", """            &self.level_2_data_records.volumes_at_levels.0[0],
+            &self.level_2_data_records.volumes_at_levels.1[0],"""), expect="getters")
+mutant("c11-trade-vols-asset-zero", "C11", (MENV, "            self.trade_vols[i].push(tv);", "            self.trade_vols[0].push(tv);"), expect="step")
+mutant("c11-record-stale-asset", "C11", (MENV, "self.level_2_data_records[i].append_record(&self.level_2_data[i]);", "self.level_2_data_records[i].append_record(&self.level_2_data[0]);"), expect="step")
+mutant("c11-prices-swapped", "C11", (DATA, "        self.prices.0.push(record.bid_price);\n        self.prices.1.push(record.ask_price);", "        self.prices.0.push(record.ask_price);\n        self.prices.1.push(record.bid_price);"), expect="append")
+mutant("c11-touch-level-one", "C11", (MENV, "            &self.level_2_data_records[asset].volumes_at_levels.1[0],", "            &self.level_2_data_records[asset].volumes_at_levels.1[1],"), expect="getters")
+refactor("c11-append-iter-enumerate", "C11", (DATA, "        self.volumes.0.push(record.bid_vol);\n        self.volumes.1.push(record.ask_vol);", "        self.volumes.1.push(record.ask_vol);\n        self.volumes.0.push(record.bid_vol);"))
+
+# ------------------------------------------------------------------------------- C15
+mutant("c15-partial-slice", "C15", (ENV, "        transactions.shuffle(rng);", "        transactions[1..].shuffle(rng);"), expect="shuffle")
+mutant("c15-reverse-instead", "C15", (MENV, "        transactions.shuffle(rng);", "        transactions.reverse();"), expect="shuffle")
+mutant("c15-sort-after-shuffle", "C15", (ENV, "        transactions.shuffle(rng);", "        transactions.shuffle(rng);\n        transactions.sort_by_key(|e| matches!(e, Event::Cancellation { .. }));"), expect="shuffle")
+mutant("c15-conditional-shuffle", "C15", (ENV, "        transactions.shuffle(rng);", "        if transactions.len() > 2 {\n            transactions.shuffle(rng);\n        }"), expect="shuffle")
+mutant("c15-rev-loop", ["C15"], (MENV, "for (i, t) in transactions.into_iter().enumerate() {", "for (i, t) in transactions.into_iter().rev().enumerate() {"), expect="shuffle")
+mutant("c15-hand-swap", "C15", (ENV, "        transactions.shuffle(rng);", "        transactions.shuffle(rng);\n        if transactions.len() > 1 {\n            transactions.swap(0, 1);\n        }"), expect="shuffle")
